@@ -37,6 +37,8 @@ def nested_defs():
         "E2mu": E(False, [V(0, "map", "named", [F(0, True, -1, "u8"), F(1, True, -1, "str")]), V(1, "array", "tuple", [F(0, False, -1, "u8")])]),
         "E2a": {"kind": "enum", "enc": "map", "tag": -1, "index_only": False, "variants": [V(0, "array", "unit", []), V(1, "map", "tuple", [F(0, False, -1, "u8")])]},
         "E2au": {"kind": "enum", "enc": "map", "tag": -1, "index_only": False, "variants": [V(0, "array", "tuple", [F(0, True, -1, "u8")]), V(1, "map", "tuple", [F(0, False, -1, "u8")])]},
+        "Eu": E(False, [V(0, "array", "unit", []), V(1, "array", "unit", [])]),
+        "Eux": E(False, [V(0, "array", "unit", []), V(1, "array", "unit", []), V(2, "array", "unit", []), V(3, "array", "tuple", [F(0, False, -1, "u8")])]),
         "Io": E(True, [V(0, "array", "unit", []), V(1, "array", "unit", [])]),
         "Iox": E(True, [V(0, "array", "unit", []), V(1, "array", "unit", []), V(7, "array", "unit", [])]),
     }
@@ -160,7 +162,7 @@ def uncompilable_sids(src):
     return bad
 
 
-WHY_OF = {"C08": {"bytes"}, "C07": {"len"}, "C09": {"dec:same", "dec:wider", "dec:indef", "dec:indefall", "dec:wideall", "dec:badtag", "dec:missing", "dec:unkvar", "panic"}, "C10": {"dec:fwd", "dec:bwd", "dec:xfwd", "dec:xbwd", "dec:fwdany"}}
+WHY_OF = {"C08": {"bytes"}, "C07": {"len"}, "C09": {"dec:same", "dec:xsame", "dec:wider", "dec:indef", "dec:indefall", "dec:wideall", "dec:badtag", "dec:missing", "dec:unkvar", "panic"}, "C10": {"dec:fwd", "dec:bwd", "dec:xfwd", "dec:xbwd", "dec:fwdany"}}
 
 
 def replay(ver, wd, only):
